@@ -1125,3 +1125,45 @@ def g_clone_twice(self):
 
 Gen.g_bulk_create = g_bulk_create
 Gen.g_clone_twice = g_clone_twice
+
+
+def g_linked_copy(self):
+    """Copies of Sections whose link is resolved, cleaned on either side later: one op per call,
+    chosen by looking at the state (document -> target with a definition -> linker without ->
+    link -> copy -> clean the copy -> clean the original)."""
+    docs = self.U.of_kind("doc")
+    if not docs:
+        return self.g_new_doc()
+    d = self.pick(docs)
+    tops = list(d.sections)
+    merged = [s_ for s_ in self.secs() if s_.link is not None and s_.is_merged]
+    if merged and self.chance(0.75):
+        r = self.rng.random()
+        x = self.pick(merged)
+        if r < 0.4:
+            root = self.U.top(x)
+            if not self.room(len(self.U.subtree(root))):
+                return None
+            return {"op": "clone", "x": self.ref(root if self.chance(0.6) else x), "children": True,
+                    "keep_id": self.chance(0.3)}
+        return {"op": "clean", "x": self.cref(self.U.top(x) if self.chance(0.6) else x)}
+    with_def = [s_ for s_ in tops if s_.definition and s_.link is None]
+    plain = [s_ for s_ in tops if not s_.definition and s_.link is None and not len(s_.sections)]
+    if not self.room(2):
+        return None
+    free = [n for n in FRESH if not any(s_.name == n for s_ in tops)]
+    if not free:
+        return None
+    if not with_def:
+        return {"op": "create_section", "t": self.cref(d), "name": free[0], "type": "t1",
+                "definition": "a definition to inherit"}
+    if not plain:
+        return {"op": "create_section", "t": self.cref(d), "name": free[0], "type": "t1"}
+    t = self.pick(with_def)
+    if not len(t.properties) and self.chance(0.5):
+        return {"op": "create_property", "t": self.ref(t), "name": self.pick(FRESH), "dtype": "int",
+                "values": 1}
+    return {"op": "set_link", "x": self.ref(self.pick(plain)), "path": t.get_path()}
+
+
+Gen.g_linked_copy = g_linked_copy
